@@ -3,6 +3,7 @@
 Events: return value / exception / logical step count of every pull, receive_reward and the final get_last_point.
 Oracle: no exception; a list/tuple of d finite reals inside the *user's* box; <= STEP_LIMIT PyXAB function entries
 per call (a hang is decided on logical steps, never on wall-clock time)."""
+import math
 import copy
 
 import numpy as np
@@ -116,6 +117,17 @@ def gen_cases(rng, tier, count=None):
             # (a tiny exploration constant makes HCT split at every pull: 8300 levels, minutes per run)
             c["params"]["c"] = max(c["params"]["c"], 0.05)
         c["_cost"] = 20.0 * n / 2100
+        cases.append(c)
+    for i in range(28 if tier == "quick" else 400):
+        # large declared budgets for the algorithms whose schedule is a function of the budget (StroquOOL's p_max and
+        # h_max, SequOOL's h_max, StoSOO's k and cap): n up to 40 000, driven for at most 2 500 rounds (T <= n), with
+        # order-sensitive reward histories (which cells look best early on decides who is a candidate later)
+        a = ["StroquOOL", "StroquOOL", "SequOOL", "StoSOO"][i % 4]
+        n = int(10 ** rng.uniform(math.log10(2950), math.log10(40000)))
+        c = gen.algo_case(rng, a, tier, n=n, T=min(n, int(rng.integers(600, 2500))),
+                          fams=["decr", "drift", "incr", "best_first", "records", "noisy", "neg", "cl_hump"],
+                          dim=int(rng.integers(1, 3)))
+        c["_cost"] = 6.0
         cases.append(c)
     for i in range(30 if tier == "quick" else 600):
         # POO close to rhomax = 1 keeps doubling its number of learners: small budgets meet large N there
